@@ -55,7 +55,7 @@ def main():
     ap.add_argument('--timeout', type=int, default=1500)
     ap.add_argument('--out', default='/tmp/seed_matrix.json')
     a = ap.parse_args()
-    dirs = sorted(glob.glob('/verif/seeded/[STUVW]*'))
+    dirs = sorted(glob.glob('/verif/seeded/[STUVWX]*'))
     if a.seeds != 'all':
         want = a.seeds.split(',')
         dirs = [d for d in dirs if any(os.path.basename(d).startswith(w)
